@@ -131,7 +131,8 @@ def ledgerTags (txs : List Tx) (ds : List Delta) (fail : Option Failure) : List 
   let nt := (if txs.length ≥ 3 && nSellNonReg ≥ 1 then ["C01"] else []) ++
             (if nLoss ≥ 1 then ["C02"] else []) ++
             (if c3 && nSfl ≥ 1 then ["C03"] else []) ++
-            (if txs.length ≥ 2 then ["C04"] else []) ++ ["C05"]
+            (if txs.length ≥ 2 then ["C04"] else []) ++ ["C05"] ++
+            (if txs.any (·.act.isSplit) then ["C15"] else [])
   [s!"nt={String.intercalate "," nt}", s!"n={txs.length}", s!"affs={affs.length}", s!"reg={(affs.filter (·.registered)).length}",
    s!"loss={nLoss}", s!"sfl={nSfl}", s!"partial={nPartial}", s!"over={nOver}",
    s!"splits={(txs.filter (·.act.isSplit)).length}",
